@@ -8,7 +8,9 @@ from .. import e1_model as e1
 from .. import e2_regex as e2
 from ..e3_rules import get_engine, shape_of
 from ..e3_values import *  # noqa
-from .common import rule_construct, report_undecided, norm, calls_in
+from .common import rule_construct, report_undecided, norm, calls_in, runs_of, Relevant
+
+RELEVANT = Relevant()
 from .lang import rules_accepting, accepts
 from .relspec import Summary, ts_sweep
 
@@ -20,6 +22,7 @@ NUM_DE = ["eins", "zwei", "drei", "vier", "fünf", "sechs", "sieben", "acht", "n
 
 def check(ctx, rep, tier):
     eng = get_engine(ctx)
+    RELEVANT.names.clear()
     rep.describe("ampm-map", "for every clock rule with an am/pm group, on every path and "
                  "every (hour, minute, am/pm) the summary gives: absent -> h; am: 12 -> 0, "
                  "1..11 -> h; pm: 1..11 -> h+12, 12.. -> h; minute unchanged")
@@ -39,12 +42,13 @@ def check(ctx, rep, tier):
     _latent(ctx, rep, eng, ts_sweep(tier))
     _named(ctx, rep, eng)
     _todpod(ctx, rep, eng)
-    report_undecided(rep, eng)
+    report_undecided(rep, eng, RELEVANT)
     rep.assume("not decided: that each notation's regex accepts each of the 1440 minutes; ranking")
 
 
 def _runs_of(eng, rule):
-    return [run for mk, run in eng.runs.items() if run.rule is rule]
+    RELEVANT.add(rule)
+    return runs_of(eng, rule)
 
 
 def _ampm_group(ctx, text):
